@@ -33,3 +33,8 @@ def _str_derived(ex):
 
 
 CONDS['KF-C03-str'] = _str_derived
+
+# C01 ------------------------------------------------------------------------------------------
+# any closure found in the host's names mapping was created by an earlier eval call (this call has not
+# evaluated anything yet), so its captured state is never the new one: the whole clause is the finding
+CONDS['KF-C01-closure'] = lambda ex: z3.BoolVal(True)
